@@ -11,6 +11,12 @@ CHECKS = {
    text="Every operation result, every aliasing pattern and the full query battery are compared with the specification's set semantics on every state of the bounded model (all pairs of representations of all sets over a two-word block map) and on simulated histories over wider maps; equality is the unique documented answer, so any mismatch is a violation.",
    design_ref="DESIGN.md section 6, C03",
    note="Trusted: TLC, the Json community module, the recorder's projection through hwloc_bitmap_next/next_unset (itself cross-checked against isset probes by the trace spec). Not explored: ENOMEM paths, indexes above 2^20."),
+ "C01": dict(
+   technique="TLA+ specification of a well-formed topology (spec/Topology.tla, one named conjunct per clause of the property) evaluated by TLC on the full projection of every topology the rebuilt library loads; configurations (filter and flag call sequences, legal and illegal) enumerated and simulated by TLC from spec/MC_Load.tla + Lifecycle.tla and replayed over synthetic families, bundled XML, Linux snapshots, CPUID dumps and the live machine",
+   category="model_checking",
+   text="TLC enumerates the configuration model and validates each recorded load against the configuration relations (SetFlagsRel, SetFilterRel) and the 20-clause WellFormed predicate, which is written from the property and independent of hwloc_topology_check(); hwloc_topology_check() itself is run in a forked child and its abort is one clause. The source x configuration product is sampled per source in the quick tier and much wider in the thorough tier.",
+   design_ref="DESIGN.md section 6, C01",
+   note="Trusted: TLC, the projection code in harness/project.h (public accessors only). Not covered: backends that need hardware not present; RESTRICT_TO_*BINDING flags on the live machine."),
 }
 NA_REASON = {}
 
